@@ -122,6 +122,13 @@ class SymCase:
         self.inputs[name] = ("pick", i)
         return options[i]
 
+    def text(self, name, pool=None):
+        """an arbitrary str, known only through the observations made of it"""
+        from .astr import AStr
+        a = AStr(name)
+        self.inputs[name] = ("astr", a.feats, pool)
+        return a
+
     def enum(self, name, cls):
         """a symbolic member of an Enum class"""
         v = z3.Int(name)
@@ -323,6 +330,9 @@ class ConcCase:
 
     def enum(self, name, cls):
         return list(cls)[self._get(name)]
+
+    def text(self, name, pool=None):
+        return self._get(name)
 
     def new(self, cls, **fields):
         obj = cls.__new__(cls)
@@ -529,6 +539,23 @@ def valuation_from_model(model, inputs):
             val[name] = d[1]
         elif kind == "enum":
             val[name] = model_value(model, d[1])
+        elif kind == "astr":
+            from .astr import native_features
+            feats, pool = d[1], d[2] or []
+            want = {}
+            for key, t in feats:
+                v = model_value(model, t)
+                want[key] = v
+            keys = [k for k, _ in feats]
+            found = None
+            for cand in pool:
+                nf = native_features(cand, keys)
+                if all(nf[k] is None or nf[k] == want[k] for k in keys):
+                    found = cand
+                    break
+            if found is None:
+                raise Unconstructible(f"no candidate string has the features of the model for {name}")
+            val[name] = found
     return val
 
 
